@@ -36,6 +36,8 @@ func idPool() []string {
 		p = append(p, harness.AdminKey(i).Addr.String(), harness.User(i).Addr.String())
 	}
 	p = append(p, harness.FullID(harness.ChainA, "s1")+"-"+harness.FullID(harness.ChainB, "s1")+"-1")
+	// address-like strings that are valid hex and not 20 bytes long, without prefix, too long, odd length
+	p = append(p, "0x1234", "0x", "1234", "0x00000000000000000000000000000000000000a2ff", "0xabc", "0X00000000000000000000000000000000000000A2")
 	p = append(p, "0x00000000000000000000000000000000000000a2", "appchain_mgr", "service_mgr", "rule_mgr", "role_mgr", "node_mgr", "governanceAdmin", "appchainAdmin", "auditAdmin", "vpNode", "nvpNode")
 	return p
 }
@@ -135,6 +137,25 @@ func (t *t08) genTx() (pb.Transaction, string) {
 			from, to := harness.FullID(harness.ChainA, "s1"), harness.FullID(harness.ChainB, "s1")
 			t.idx[from+to]++
 			return w.IBTPTx(k, harness.MkIBTP(from, to, t.idx[from+to], pb.IBTP_INTERCHAIN, int64(r.Intn(4))), []byte("p")), "ok:ibtp"
+		}
+	case x < 15: // aimed: a well-formed call by the account that is allowed to make it, with a malformed address where a
+		// contract address belongs (hex that is not 20 bytes, no prefix, too long, odd length): passes every
+		// check up to the place where the contract looks the account up
+		bad := []string{"0x1234", "0x", "1234", "0x00000000000000000000000000000000000000a2ff", "0xabc", "abcd", "0x00"}[r.Intn(7)]
+		chain := []string{harness.ChainA, harness.ChainB, "chainW"}[r.Intn(3)]
+		ca := harness.ChainAdmin(chain)
+		switch r.Intn(4) {
+		case 0:
+			return w.BVM(ca, harness.AddrRule, "RegisterRule", pb.String(chain), pb.String(bad), pb.String("url")), "aimed:malformed-address:RuleManager.RegisterRule"
+		case 1:
+			return w.BVM(ca, harness.AddrRule, "UpdateMasterRule", pb.String(chain), pb.String(bad), pb.String("reason")), "aimed:malformed-address:RuleManager.UpdateMasterRule"
+		case 2:
+			nk := harness.User(r.Intn(4))
+			return w.BVM(nk, harness.AddrAppchain, "RegisterAppchain", pb.String(fmt.Sprintf("chainZ%d", r.Intn(1000))), pb.String(fmt.Sprintf("nameZ%d", r.Intn(100000))), pb.Bytes(nil), pb.String("ETH"), pb.Bytes(nil), pb.String("123"), pb.String("desc"),
+				pb.String(bad), pb.String("url"), pb.String(nk.Addr.String()), pb.String("reason")), "aimed:malformed-address:AppchainManager.RegisterAppchain"
+		default:
+			return w.BVM(harness.User(r.Intn(4)), types.NewAddressByStr("0x0000000000000000000000000000000000000020"), "RegisterDapp", pb.String(fmt.Sprintf("dapp%d", r.Intn(100000))), pb.String("tool"), pb.String("desc"), pb.String("url"),
+				pb.String(bad), pb.String(""), pb.String("reason")), "aimed:malformed-address:DappManager.RegisterDapp"
 		}
 	case x < 50: // dispatch surface
 		m := t.surf[r.Intn(len(t.surf))]
@@ -345,7 +366,13 @@ func total08Workload(args []string) int {
 	a := parseArgs("total08", args, nil)
 	w := vlog.Open(a.Out)
 	pool := idPool()
+	wedgedOnce := false
 	for id := a.From; id < a.To; id++ {
+		if wedgedOnce {
+			// every further case would cost one more block watchdog and tell nothing new
+			w.Count("cases_not_run_after_a_wedged_node", int64(a.To-id))
+			break
+		}
 		rng := vlog.CaseRand(a.Seed, "total08", id)
 		opts := harness.Options{NoAudit: rng.Intn(3) == 0, Watchdog: 0}
 		if rng.Intn(2) == 0 {
@@ -455,6 +482,7 @@ func total08Workload(args []string) int {
 					parked := strings.Contains(dump, "processExecuteEvent") || strings.Contains(dump, "listenExecuteEvent")
 					if parked && !strings.Contains(dump, "running]:\ngithub.com/meshplus/bitxhub/internal/executor") {
 						w.Violation("wedged:no-executed-event", fmt.Sprintf("block %d: no ExecutedEvent before the watchdog and the executor is parked; txs: %s", h0+1, strings.Join(tags, " | ")), map[string]interface{}{"tags": tags})
+						wedgedOnce = true
 					} else {
 						w.Inconclusive("watchdog fired while the executor was still running")
 					}
